@@ -33,28 +33,29 @@ theorem dRMul_scal (env : Nat → Vec K → Vec K) (a : Impl K) (s : K) (re : Bo
   by_cases hf : a.isFn = true
   · have hr := h hf
     by_cases hs : s = 0 <;>
-      simp [hf, hr, hs, tables, functionalRMul, operatorRMul, Act.eval, Guard.eval, construct]
+      simp [hf, hr, hs, tables, functionalRMul, operatorRMul, Act.eval, Guard.eval, construct, ctorLScal, ctorRScal]
   · have hf' : a.isFn = false := by simpa using hf
-    simp [hf', tables, operatorRMul, Act.eval, Guard.eval, construct]
+    simp [hf', tables, operatorRMul, Act.eval, Guard.eval, construct, ctorLScal, ctorRScal]
 
 theorem dRMul_vec (env : Nat → Vec K → Vec K) (a : Impl K) (v : VecLit K) (h : FnRan a) :
     dispatchRMul tables env a (.vec v) = opRMulVec v a := by
   unfold dispatchRMul opRMulVec
   by_cases hf : a.isFn = true
   · have hr := h hf
-    simp [hf, hr, tables, functionalRMul, operatorRMul, Act.eval, Guard.eval, construct]
+    simp [hf, hr, tables, functionalRMul, operatorRMul, Act.eval, Guard.eval, construct, ctorLScal, ctorRScal]
   · have hf' : a.isFn = false := by simpa using hf
     by_cases h1 : a.ran = .vec v.n <;> by_cases h2 : a.ran = .fld <;>
-      simp [hf', h1, h2, tables, operatorRMul, Act.eval, Guard.eval, construct]
+      simp [hf', h1, h2, tables, operatorRMul, Act.eval, Guard.eval, construct, ctorLScal, ctorRScal]
 
-theorem dMul_op (env : Nat → Vec K → Vec K) (a b : Impl K) :
+theorem dMul_op (env : Nat → Vec K → Vec K) (a b : Impl K) (h : FnRan a) :
     dispatchMul tables env a (.op b) = opMul a b := by
   unfold dispatchMul opMul
   by_cases hf : a.isFn = true
-  · simp [hf, tables, functionalMul, Act.eval, Guard.eval, construct, ctorComp]
+  · have hr := h hf
+    simp [hf, hr, tables, functionalMul, Act.eval, Guard.eval, construct, ctorLScal, ctorRScal, ctorComp]
   · have hf' : a.isFn = false := by simpa using hf
     cases hp : rscalParts a <;>
-      simp [hf', hp, tables, rscalMul, operatorMul, Act.eval, Guard.eval, construct, ctorComp]
+      simp [hf', hp, tables, rscalMul, operatorMul, Act.eval, Guard.eval, construct, ctorLScal, ctorRScal, ctorComp]
 
 theorem dMul_scal (env : Nat → Vec K → Vec K) (a : Impl K) (s : K) (re : Bool) (h : FnRan a) :
     dispatchMul tables env a (.scal s re) = some (opMulScal env a s re) := by
@@ -62,20 +63,20 @@ theorem dMul_scal (env : Nat → Vec K → Vec K) (a : Impl K) (s : K) (re : Boo
   by_cases hf : a.isFn = true
   · have hr := h hf
     by_cases hs : s = 0 <;> by_cases hl : a.lin = true <;> cases re <;>
-      simp [hf, hr, hs, hl, tables, functionalMul, Act.eval, Guard.eval, construct]
+      simp [hf, hr, hs, hl, tables, functionalMul, Act.eval, Guard.eval, construct, ctorLScal, ctorRScal]
   · have hf' : a.isFn = false := by simpa using hf
     cases hp : rscalParts a with
     | some p =>
       obtain ⟨a', t⟩ := p
-      simp [hf', hp, tables, rscalMul, Act.eval, Guard.eval, construct]
+      simp [hf', hp, tables, rscalMul, Act.eval, Guard.eval, construct, ctorLScal, ctorRScal]
     | none =>
       by_cases hl : a.lin = true
       · cases re
-        · simp [hf', hl, tables, operatorMul, Act.eval, Guard.eval, construct]
+        · simp [hf', hl, tables, operatorMul, Act.eval, Guard.eval, construct, ctorLScal, ctorRScal]
         · have := dRMul_scal env a s true h
-          simp [hf', hl, tables, operatorMul, Act.eval, Guard.eval] at this ⊢
+          simp [hf', hl, tables, operatorMul, Act.eval, Guard.eval, ctorLScal, ctorRScal] at this ⊢
           exact this
-      · simp [hf', hl, tables, operatorMul, Act.eval, Guard.eval, construct]
+      · simp [hf', hl, tables, operatorMul, Act.eval, Guard.eval, construct, ctorLScal, ctorRScal]
 
 theorem dMul_vec (env : Nat → Vec K → Vec K) (a : Impl K) (v : VecLit K) (h : FnRan a) :
     dispatchMul tables env a (.vec v) = opMulVec a v := by
@@ -89,38 +90,38 @@ theorem dMul_vec (env : Nat → Vec K → Vec K) (a : Impl K) (v : VecLit K) (h 
   · have hf' : a.isFn = false := by simpa using hf
     by_cases h1 : a.dom = .vec v.n <;>
       cases hp : rscalParts a <;>
-      simp [hf', h1, hp, tables, rscalMul, operatorMul, Act.eval, Guard.eval, construct]
+      simp [hf', h1, hp, tables, rscalMul, operatorMul, Act.eval, Guard.eval, construct, ctorLScal, ctorRScal]
 
 theorem dAdd_op (env : Nat → Vec K → Vec K) (a b : Impl K) :
     dispatchAdd tables env a (.op b) = mkSum a b := by
   unfold dispatchAdd mkSum
   by_cases hf : a.isFn = true
   · by_cases hb : b.isFn = true
-    · simp [hf, hb, tables, functionalAdd, Act.eval, Guard.eval, construct, ctorSum]
+    · simp [hf, hb, tables, functionalAdd, Act.eval, Guard.eval, construct, ctorLScal, ctorRScal, ctorSum]
     · have hb' : b.isFn = false := by simpa using hb
-      simp [hf, hb', tables, functionalAdd, operatorAdd, Act.eval, Guard.eval, construct, ctorSum]
+      simp [hf, hb', tables, functionalAdd, operatorAdd, Act.eval, Guard.eval, construct, ctorLScal, ctorRScal, ctorSum]
   · have hf' : a.isFn = false := by simpa using hf
-    simp [hf', tables, operatorAdd, Act.eval, Guard.eval, construct, ctorSum]
+    simp [hf', tables, operatorAdd, Act.eval, Guard.eval, construct, ctorLScal, ctorRScal, ctorSum]
 
 theorem dAdd_scal (env : Nat → Vec K → Vec K) (a : Impl K) (s : K) (re : Bool) (h : FnRan a) :
     dispatchAdd tables env a (.scal s re) = opAddScal a s := by
   unfold dispatchAdd opAddScal
   by_cases hf : a.isFn = true
   · have hr := h hf
-    simp [hf, hr, tables, functionalAdd, Act.eval, Guard.eval, construct]
+    simp [hf, hr, tables, functionalAdd, Act.eval, Guard.eval, construct, ctorLScal, ctorRScal]
   · have hf' : a.isFn = false := by simpa using hf
     cases hr : a.ran <;>
-      simp [hf', hr, tables, operatorAdd, Act.eval, Guard.eval, construct]
+      simp [hf', hr, tables, operatorAdd, Act.eval, Guard.eval, construct, ctorLScal, ctorRScal]
 
 theorem dAdd_vec (env : Nat → Vec K → Vec K) (a : Impl K) (v : VecLit K) (h : FnRan a) :
     dispatchAdd tables env a (.vec v) = opAddVec a v.val v.n := by
   unfold dispatchAdd opAddVec
   by_cases hf : a.isFn = true
   · have hr := h hf
-    simp [hf, hr, tables, functionalAdd, operatorAdd, Act.eval, Guard.eval, construct]
+    simp [hf, hr, tables, functionalAdd, operatorAdd, Act.eval, Guard.eval, construct, ctorLScal, ctorRScal]
   · have hf' : a.isFn = false := by simpa using hf
     by_cases h1 : a.ran = .vec v.n <;>
-      simp [hf', h1, tables, operatorAdd, Act.eval, Guard.eval, construct]
+      simp [hf', h1, tables, operatorAdd, Act.eval, Guard.eval, construct, ctorLScal, ctorRScal]
 
 theorem pyAdd_op (env : Nat → Vec K → Vec K) (a b : Impl K) :
     pyAdd tables env a (.op b) = opAdd a b := by
@@ -133,16 +134,38 @@ theorem reflectedFirst_isFn {a b : Impl K} (h : reflectedFirst a b = true) :
   unfold reflectedFirst at h
   split at h <;> simp_all
 
-theorem pyMul_op (env : Nat → Vec K → Vec K) (a b : Impl K) (hb : FnRan b) :
+theorem pyMul_op (env : Nat → Vec K → Vec K) (a b : Impl K) (ha : FnRan a) (hb : FnRan b) :
     pyMul tables env a (.op b) = opMul a b := by
   simp only [pyMul]
   split_ifs with h
   · obtain ⟨ha, hbf⟩ := reflectedFirst_isFn h
     have hr := hb hbf
     unfold dispatchRMul opMul
-    simp [ha, hbf, hr, tables, functionalRMul, operatorRMul, Act.eval, Guard.eval, construct,
+    simp [ha, hbf, hr, tables, functionalRMul, operatorRMul, Act.eval, Guard.eval, construct, ctorLScal, ctorRScal,
       ctorComp]
-  · exact dMul_op env a b
+  · exact dMul_op env a b ha
+
+/-- the extracted out-of-place `_call` table computes what `run` computes -/
+theorem runBy_eq_run (env : Nat → Vec K → Vec K) (i : Impl K) :
+    ∀ x, runBy callOf env i x = run env i x := by
+  induction i with
+  | leaf l => intro x; rfl
+  | sum fn l r ihl ihr =>
+    intro x; cases fn <;> simp [runBy, callOf, CExpr.eval, run, ihl, ihr]
+  | scalSum f c ih => intro x; simp [runBy, callOf, CExpr.eval, run, ih]
+  | vecSum a v ih => intro x; simp [runBy, callOf, CExpr.eval, run, ih]
+  | comp fn l r ihl ihr =>
+    intro x; cases fn <;> simp [runBy, callOf, CExpr.eval, run, ihl, ihr]
+  | pprod fn l r ihl ihr =>
+    intro x; cases fn <;> simp [runBy, callOf, CExpr.eval, run, ihl, ihr]
+  | quot l r ihl ihr => intro x; simp [runBy, callOf, CExpr.eval, run, ihl, ihr]
+  | lscal fn a s ih => intro x; cases fn <;> simp [runBy, callOf, CExpr.eval, run, ih]
+  | rscal fn a s ih => intro x; cases fn <;> simp [runBy, callOf, CExpr.eval, run, ih]
+  | lvec a v ih => intro x; simp [runBy, callOf, CExpr.eval, run, ih]
+  | rvec fn a v ih => intro x; cases fn <;> simp [runBy, callOf, CExpr.eval, run, ih]
+  | flvec a v ih => intro x; simp [runBy, callOf, CExpr.eval, run, ih]
+  | const d c => intro x; simp [runBy, callOf, CExpr.eval, run]
+  | zero d => intro x; simp only [runBy, callOf, CExpr.eval, run]; rfl
 
 theorem fnRan_opRMulScal (a : Impl K) (s : K) (h : FnRan a) : FnRan (opRMulScal s a) :=
   fnRan_of_ty (ty_opRMulScal a s h) h
